@@ -63,6 +63,7 @@ var c18query = func() []byte {
 }()
 
 const c18guard = 8 * time.Second // liveness guard, never an oracle
+const c18referralWait = 150 * time.Millisecond
 
 func c18run(c c18cfg) (r c18result) {
 	exp := c18reference(c)
@@ -95,8 +96,13 @@ func c18run(c c18cfg) (r c18result) {
 	switch c.Via {
 	case "socks5":
 		opt.Socks5 = c18socksAddr
-	case "bootstrap":
+	case "bootstrap", "bootstrap-referral":
 		opt.Bootstrap = c18bootAddr
+	}
+	if c.Via == "bootstrap-referral" && (exp.MustReject != "" || c18kind(exp.Host) != "name") {
+		// the bootstrap resolver is only consulted for host names
+		r.Class = "not-applicable"
+		return r
 	}
 	u, err = NewUpstream(r.Addr, opt)
 	if err != nil {
@@ -111,7 +117,14 @@ func c18run(c c18cfg) (r c18result) {
 		return r
 	}
 
-	ctx, cancel := context.WithTimeout(context.Background(), c18guard)
+	wait := c18guard
+	if c.Via == "bootstrap-referral" {
+		// the fake bootstrap server never returns an address for the user's name: nothing can be
+		// connected, the exchange only ends with its context (what is judged is whether anything
+		// was contacted meanwhile, so the length of this wait never turns a pass into a failure)
+		wait = c18referralWait
+	}
+	ctx, cancel := context.WithTimeout(context.Background(), wait)
 	resp, xerr := u.ExchangeContext(ctx, c18query)
 	cancel()
 	switch {
@@ -187,15 +200,15 @@ func c18judge(r *c18result, resolved map[string]bool) {
 			// hop to the configured proxy; the CONNECT target is what counts
 		case op.Kind == "socks5-connect" && r.Cfg.Via == "socks5":
 			checkDest("SOCKS5 CONNECT", op.Addr)
-		case op.Kind == "bootstrap-dial" && r.Cfg.Via == "bootstrap":
+		case op.Kind == "bootstrap-dial" && (r.Cfg.Via == "bootstrap" || r.Cfg.Via == "bootstrap-referral"):
 			if op.Addr != c18bootAddr+":53" {
 				bad("unexpected-op", "bootstrap resolver contacted at %q, configured %q", op.Addr, c18bootAddr)
 			}
-		case op.Kind == "bootstrap-query" && r.Cfg.Via == "bootstrap":
+		case op.Kind == "bootstrap-query" && (r.Cfg.Via == "bootstrap" || r.Cfg.Via == "bootstrap-referral"):
 			// the name handed to the bootstrap resolver must be the one the user wrote
 			if !strings.EqualFold(strings.TrimSuffix(op.Addr, "."), strings.TrimSuffix(exp.Host, ".")) {
 				bad("dial-host", "bootstrap resolver asked for %q but the user wrote %q (dial_addr %q): expected name %q", op.Addr, r.Addr, r.Cfg.Dial, exp.Host)
-			} else {
+			} else if r.Cfg.Via == "bootstrap" {
 				bootHost = true
 			}
 		case op.Kind == "dial" && !quicLike:
@@ -220,6 +233,11 @@ func c18judge(r *c18result, resolved map[string]bool) {
 			}
 			checkDest("QUIC datagrams", d)
 		}
+	}
+	if r.Cfg.Via == "bootstrap-referral" && r.conns == 0 && len(r.Viol) == 0 {
+		// the resolver was only given a referral (no address for the user's name): nothing to connect to
+		r.Class = "no-address-nothing-contacted"
+		return
 	}
 	if r.conns == 0 && len(r.Viol) == 0 {
 		r.Infra = "accepted configuration opened no connection (" + r.Exchange + ")"
@@ -391,7 +409,7 @@ func c18spaceFor(tier string) c18space {
 		ports:   []string{"", "53", "5353", "65535", "65536", "65589"},
 		dials:   []string{"", "192.0.2.7", "192.0.2.7:8853", "2001:db8::7", "[2001:db8::7]:8853", "dial.example.net", "dial.example.net:8853"},
 		paths:   []string{"", "/dns-query"},
-		vias:    []string{"", "socks5", "bootstrap", "refuse-first", "redirect-first"},
+		vias:    []string{"", "socks5", "bootstrap", "refuse-first", "redirect-first", "bootstrap-referral"},
 	}
 	if tier == "thorough" {
 		sp.schemes = append(sp.schemes, "ftp")
